@@ -33,6 +33,7 @@ type emitter struct {
 	cfg     *lib.Config
 	files   []*lib.CasesFile
 	radix   *lib.CasesFile
+	rpad    *lib.CasesFile
 	share   []*lib.CasesFile // values with aliasing: lvalue terms, format_value_g
 	nShare  int
 	failing int
@@ -48,6 +49,8 @@ func newEmitter(cfg *lib.Config) *emitter {
 	e := &emitter{cfg: cfg, perFile: 400}
 	e.radix = &lib.CasesFile{Imports: []string{"Model.Base", "Model.Format", "Corr.CorrC20"}, Typ: "rcase",
 		Obligations: map[string]string{"radix_model": "radix_mismatches cases"}}
+	e.rpad = &lib.CasesFile{Imports: []string{"Model.Base", "Model.Format", "Corr.CorrC20"}, Typ: "pcase",
+		Obligations: map[string]string{"radix_pad_model": "radix_pad_mismatches cases"}}
 	return e
 }
 
@@ -333,6 +336,25 @@ func (e *emitter) addRadix(c radixCase, text string, back int64, errText string)
 	e.radix.Add(fmt.Sprintf("mkRCase %s %s %s %s %s", lib.GZ(c.N), lib.GStr(c.D), lib.GZ(c.Radix), lib.GStr(text), res), c)
 }
 
+// addRadixPad: a padded rendering, trimmed, through both dispatches of the Integer constructor
+func (e *emitter) addRadixPad(c radixPadCase, text string, back [2]int64, errs [2]string) {
+	if len(e.rpad.Cases) >= 1200 && !e.cfg.Thorough() || len(e.rpad.Cases) >= 8000 {
+		return
+	}
+	res := [2]string{}
+	for i := range res {
+		res[i] = "(@None Z)"
+		if errs[i] == "" {
+			res[i] = "(Some " + lib.GZ(back[i]) + ")"
+		}
+	}
+	abs := "(@None bool)"
+	if c.Abs > 0 {
+		abs = "(Some " + lib.GBool(c.Abs == 2) + ")"
+	}
+	e.rpad.Add(fmt.Sprintf("mkPCase %s %s %s %s %s %s %s", lib.GZ(c.N), lib.GStr(c.D), lib.GZ(c.Radix), abs, lib.GStr(text), res[0], res[1]), c)
+}
+
 // keysFile ties the model's key tables (key_sub, key_accepts) to px.IsAssignable on every run.
 func keysFile(vals []Val) *lib.CasesFile {
 	cf := &lib.CasesFile{Imports: []string{"Model.Base", "Model.Format", "Corr.CorrC20"}, Typ: "kcase",
@@ -366,6 +388,9 @@ func (e *emitter) flush(res *lib.Result) {
 	}
 	if len(e.radix.Cases) > 0 {
 		res.CorrFiles = append(res.CorrFiles, e.radix.WriteTo(e.cfg.Out, "cases_radix"))
+	}
+	if len(e.rpad.Cases) > 0 {
+		res.CorrFiles = append(res.CorrFiles, e.rpad.WriteTo(e.cfg.Out, "cases_radixpad"))
 	}
 	for i, cf := range e.share {
 		res.CorrFiles = append(res.CorrFiles, cf.WriteTo(e.cfg.Out, fmt.Sprintf("cases_share_%d", i)))
